@@ -1,0 +1,44 @@
+//go:build verif
+
+package url
+
+// Contracts for property C38, first half: every URL produced by parsing is
+// valid. Comment-only file: compiled only under the "verif" build tag,
+// contains no code. The "//@" lines are read by govc.
+//
+// "Valid" is the repository's own validation method: the postconditions call
+// (*URL).EnsureValid on the result (its body is evaluated symbolically by the
+// verifier; it is also under contract for C36).
+
+// SCP-style SSH URLs: host present and not option-like, user absent or not
+// option-like, port within 16 bits, no environment, non-empty path or well
+// formed forwarding endpoint.
+//@ func parseSCPSSH
+//@   requires kind == Kind_Synchronization || kind == Kind_Forwarding
+//@   ensures[valid] result1 == nil ==> result0 != nil && result0.EnsureValid() == nil
+//@   ensures[fields] result1 == nil ==> result0.Kind == kind && result0.Protocol == Protocol_SSH
+//@   ensures[failed] result1 != nil ==> result0 == nil
+//@   loop 3 invariant[port] port == 0
+
+// Docker URLs: container present and not option-like, no port, path starting
+// with "/", "~" or a Windows drive, or a well formed forwarding endpoint.
+//@ func parseDocker
+//@   requires kind == Kind_Synchronization || kind == Kind_Forwarding
+//@   requires len(raw) >= 9
+//@   ensures[valid] result1 == nil ==> result0 != nil && result0.EnsureValid() == nil
+//@   ensures[fields] result1 == nil ==> result0.Kind == kind && result0.Protocol == Protocol_Docker
+//@   ensures[failed] result1 != nil ==> result0 == nil
+//@   loop 2 invariant[split] container == "" && path == ""
+
+// Local URLs: no user, host, port, environment or parameters; absolute path.
+//@ func parseLocal
+//@   requires kind == Kind_Synchronization || kind == Kind_Forwarding
+//@   ensures[valid] result1 == nil && kind == Kind_Synchronization ==> result0 != nil && result0.EnsureValid() == nil
+//@   ensures[fields] result1 == nil ==> result0.Kind == kind && result0.Protocol == Protocol_Local
+//@   ensures[failed] result1 != nil ==> result0 == nil
+
+// The dispatcher.
+//@ func Parse
+//@   requires kind == Kind_Synchronization || kind == Kind_Forwarding
+//@   ensures[valid] result1 == nil && (kind == Kind_Synchronization || result0.Protocol != Protocol_Local) ==> result0 != nil && result0.EnsureValid() == nil
+//@   ensures[failed] result1 != nil ==> result0 == nil
